@@ -13,6 +13,10 @@ pub struct Repeat(pub Obj);
 impl Iterator for Repeat {
     type Item = NRes<Obj>;
     fn next(&mut self) -> Option<NRes<Obj>> {
+        #[cfg(betaveros_noulith_verif)]
+        if let Err(e) = crate::verif_hooks::tick() {
+            return Some(Err(e));
+        }
         Some(Ok(self.0.clone()))
     }
 }
@@ -78,6 +82,10 @@ pub struct Cycle(pub Rc<Vec<Obj>>, pub usize);
 impl Iterator for Cycle {
     type Item = NRes<Obj>;
     fn next(&mut self) -> Option<NRes<Obj>> {
+        #[cfg(betaveros_noulith_verif)]
+        if let Err(e) = crate::verif_hooks::tick() {
+            return Some(Err(e));
+        }
         let ret = self.0[self.1].clone();
         self.1 = (self.1 + 1) % self.0.len();
         Some(Ok(ret))
@@ -129,6 +137,10 @@ impl Range {
 impl Iterator for Range {
     type Item = NRes<Obj>;
     fn next(&mut self) -> Option<NRes<Obj>> {
+        #[cfg(betaveros_noulith_verif)]
+        if let Err(e) = crate::verif_hooks::tick() {
+            return Some(Err(e));
+        }
         if self.empty() {
             None
         } else {
